@@ -307,6 +307,20 @@ def configs(tier: str):
                                                               offset=offset, finite=False, faults=faults,
                                                               hook_faults=faults and B <= 1, entry=entry, tracer=tracer,
                                                               post_write=(tracer is True)))
+    # a variable whose (legal) name is also a method / property of the model class is traced like any other
+    for nm in ('size', 'copy', 'eval', 'values'):
+        for tracer in (True, [nm], nm, ['Y0', nm]):
+            for errors, failures in (('raise', 'ignore'), ('skip', 'ignore')):
+                out.append(lf.default_cfg(N=1, B=2, errors=errors, failures=failures, t=1, offset='zero', finite=False, faults=False,
+                                          entry='solve_t', tracer=tracer, exo_name=nm))
+    # HISTORIES: every period traced and solved before, then the series replaced by whole-series assignment / the model
+    # copied / reindexed: the snapshots must show the values the model holds NOW
+    for stage in ('rebind', 'copy', 'reindex', 'rebind_copy'):
+        for tracer in (True, ['Y0', 'X']):
+            for errors, failures in (('raise', 'ignore'), ('skip', 'ignore')):
+                for B in (1, 2):
+                    out.append(lf.default_cfg(N=1, B=B, errors=errors, failures=failures, t=1, offset='zero', finite=False, faults=False,
+                                              entry='solve_t', tracer=tracer, stage=stage, post_write=(tracer is True)))
     # an earlier, failed traced solve of another period with ANOTHER selection leaves nothing behind
     for tracer, pre in ((True, ['X']), (['Y0'], True), ('Y0', ['X', 'Y0']), (['Y0', 'X'], ['Y0'])):
         for errors, failures in (('raise', 'ignore'), ('skip', 'ignore')):
